@@ -295,6 +295,8 @@ def check_build(v, res, prop):
         v.broken_obligation("harness does not build against /repo's current tree", res.go_log[-3000:])
     if not res.coq_ok:
         v.broken_obligation("Coq development no longer checks (%s)" % (res.coq_failed_file or "?"), res.coq_log[-3000:])
+    elif not res.ocaml_ok:
+        v.broken_obligation("the extracted model and its runner (ocaml/build.sh) no longer build: the correspondence check cannot run", res.coq_log[-3000:])
     if res.audit:
         v.broken_obligation("forbidden declarations in the Coq development", "; ".join(res.audit))
 
